@@ -143,6 +143,21 @@ func checkC16(c *Ctx) {
 			}
 		})
 		sets = mergeGuardSets(sets)
+		if len(s.want) == 0 && len(all[n]) > 1 {
+			// an unconditional part written at several sites (one per exit after an early return): it is present under no
+			// condition when no path from the entry to a return avoids all of them
+			isSite := func(i ssa.Instruction) bool {
+				for _, st := range all[n] {
+					if i == st.in {
+						return true
+					}
+				}
+				return false
+			}
+			if WitnessPath(fn, nil, IsReturn, isSite) == nil {
+				sets = [][]string{{}}
+			}
+		}
 		want := append([]string{}, s.want...)
 		sort.Strings(want)
 		var gotS []string
